@@ -13,6 +13,7 @@ import time
 sys.path.insert(0, os.path.dirname(os.path.abspath(__file__)))
 from common import Report, seed, tier, write_evidence, run_model, load_findings, REPO, VERIF
 import keys_common as kc
+import keys_ext
 import coqcheck
 
 
@@ -76,6 +77,16 @@ def run_case(prop, case, keymaps):
     sig, ignore = case['sig'], case['ignore']
     func = kc.make_func(sig)
     corr, hits = [], []
+    if ignore:
+        # another function with a different layout is keyed under an equal ignore specification first:
+        # nothing it resolves (names <-> indices) may leak into this function's keys
+        pn = [n for n, _ in sig['params']]
+        decoy = kc.make_func({'params': [(n, inspect.Parameter.empty) for n in (pn[::-1] + ['zz9'])], 'varargs': True,
+                              'kwonly': [], 'varkw': True}, 'g')
+        try:
+            impl_keygen(decoy, tuple(ignore), tuple(range(len(pn) + 3)), {'e': 0})
+        except Exception:
+            pass
     stats = {'calls': 0, 'pairs_same': 0, 'pairs_diff': 0, 'kw_perm_pairs': 0, 'default_pairs': 0}
     lines = []
     expect = []
@@ -287,6 +298,14 @@ def _worker(args):
         except Exception as e:
             out.append({'idx': idx, 'error': '%s: %s' % (type(e).__name__, e)})
             continue
+        if prop in ('C09', 'C10', 'C11'):
+            try:
+                eh, es = keys_ext.run_ext_case(prop, sd, idx)
+                res['hits'] = res['hits'] + eh
+                res['stats'].update(es)
+            except Exception as e:
+                out.append({'idx': idx, 'error': 'extended callables: %s: %s' % (type(e).__name__, e)})
+                continue
         out.append({'idx': idx, 'corr': res['corr'][:3], 'hits': res['hits'][:6], 'stats': res['stats'],
                     'features': {'varargs': case['sig']['varargs'], 'varkw': case['sig']['varkw'],
                                  'kwonly': bool(case['sig']['kwonly']), 'nparams': len(case['sig']['params']),
@@ -331,6 +350,61 @@ def session_keys(sd, lo, hi, hashseed):
     if p.returncode != 0:
         raise RuntimeError(p.stderr.decode()[-800:])
     return json.loads(p.stdout.decode())
+
+
+ARCHIVE_SESSION = r'''
+import sys, json
+sys.path.insert(0, %(repo)r)
+import klepto, klepto.keymaps as km, klepto.archives as ar
+role, kind, path, kmlabel = %(role)r, %(kind)r, %(path)r, %(km)r
+KM = {
+ 'str-nf': lambda: km.stringmap(flat=False), 'str-flat': lambda: km.stringmap(flat=True),
+ 'pickle': lambda: km.picklemap(serializer='pickle'), 'dill': lambda: km.picklemap(serializer='dill'),
+ 'md5': lambda: km.hashmap(algorithm='md5'), 'SHA256': lambda: km.hashmap(algorithm='SHA256'),
+ 'str+md5': lambda: km.stringmap() + km.hashmap(algorithm='md5'), 'raw': lambda: km.keymap(),
+ 'repr-typed': lambda: km.stringmap(typed=True, encoding='repr'),
+}
+def mk():
+    if kind == 'dir': return ar.dir_archive(path, cached=True)
+    if kind == 'file': return ar.file_archive(path, cached=True)
+    return ar.sqltable_archive('sqlite:///%%s?table=memo' %% path, cached=True)
+calls = []
+def fun(x, y=2, *a, **k):
+    calls.append(1)
+    return repr([x, y, len(a), sorted(k)])
+f = klepto.lru_cache(maxsize=3, cache=mk(), keymap=KM[kmlabel](), ignore=('q',))(fun)
+ARGS = [((1,), {}), ((2, 'b'), {}), (('s',), {'y': 2.5}), ((3,), {'z': (1, 2), 'w': None}), ((4, 5, 6, 7), {'q': 1}),
+        ((), {'x': 9, 'y': 'yy'}), ((1.5,), {'y': True})]
+for a, k in ARGS:
+    f(*a, **k)
+if role == 'write':
+    f.dump()
+print(json.dumps({'evaluations': len(calls), 'info': list(f.info())}))
+'''
+
+
+def archive_sessions(scratch, thorough):
+    """a writer session and a reader session with different hash seeds on the same persistent archive:
+    the reader must find every result as a load, never recompute"""
+    kinds = ['dir', 'file', 'sql']
+    kms = ['str-nf', 'str-flat', 'pickle', 'dill', 'md5', 'SHA256', 'str+md5', 'raw', 'repr-typed']
+    combos = [(k, m) for k in kinds for m in kms if not (k == 'sql' and m == 'raw')]
+    if not thorough:
+        combos = [c for i, c in enumerate(combos) if i % 3 == 0 or c in (('dir', 'pickle'), ('dir', 'SHA256'), ('file', 'str-nf'))]
+    out = []
+    for kind, kmlabel in combos:
+        path = scratch.new({'dir': '.d', 'file': '.pkl', 'sql': '.db'}[kind])
+        res = {}
+        for role, hs in (('write', '11'), ('read', '4242')):
+            code = ARCHIVE_SESSION % {'repo': REPO, 'role': role, 'kind': kind, 'path': path, 'km': kmlabel}
+            env = dict(os.environ, PYTHONHASHSEED=hs, PYTHONPATH=REPO)
+            p = subprocess.run([sys.executable, '-c', code], env=env, stdout=subprocess.PIPE, stderr=subprocess.PIPE, timeout=300)
+            if p.returncode != 0:
+                res[role] = {'error': p.stderr.decode()[-400:]}
+            else:
+                res[role] = json.loads(p.stdout.decode().strip().split('\n')[-1])
+        out.append({'archive': kind, 'keymap': kmlabel, 'write': res.get('write'), 'read': res.get('read')})
+    return out
 
 
 def classify_known(prop, hit, findings):
@@ -406,7 +480,7 @@ def run_property(prop):
             base = session_keys(sd, 0, ncase, seeds_[0])
             for hs in seeds_[1:]:
                 other = session_keys(sd, 0, ncase, hs)
-                sessions[hs] = len(other)
+                sessions['hashseed-%s' % hs] = len(other)
                 labels = [l for l, _ in kc.all_keymaps() if not l.startswith('hash-')]
                 for i, (ra, rb) in enumerate(zip(base, other)):
                     for j, (x, y) in enumerate(zip(ra, rb)):
@@ -422,6 +496,27 @@ def run_property(prop):
                                 rep.violation(h['what'], {'row': i, 'seed': sd, 'hashseeds': [seeds_[0], hs], 'keymap': h['keymap']})
         except Exception as e:
             rep.violation('session experiment failed: %s' % e, {'broken': 'C17 session harness'}, no_input=True)
+        from common import Scratch
+        sc = Scratch()
+        try:
+            asess = archive_sessions(sc, thorough)
+        finally:
+            sc.close()
+        sessions['archive_sessions'] = len(asess)
+        for a in asess:
+            w, r = a['write'], a['read']
+            if not w or not r or 'error' in w or 'error' in r:
+                if ('asess-err',) not in seen:
+                    seen.add(('asess-err',))
+                    rep.violation('archive session %s/%s failed to run: %r' % (a['archive'], a['keymap'], (w, r)),
+                                  {'broken': 'C17 archive-session harness', 'case': a}, no_input=True)
+                continue
+            if r['evaluations'] != 0 or r['info'][1] != 0:
+                key = ('asess', a['archive'], a['keymap'])
+                if key not in seen and len([x for x in seen if isinstance(x, tuple) and x[0] == 'asess']) < 4:
+                    seen.add(key)
+                    rep.violation('a later session re-evaluated %d of 7 archived calls (%s archive, %s keymap, hash seeds 11 -> 4242): info=%r'
+                                  % (r['evaluations'], a['archive'], a['keymap'], r['info']), {'case': a, 'hashseeds': [11, 4242]})
     if not proof_ok:
         rep.violation('proof obligation no longer checks: %s' % (pinfo.get('log') or pinfo.get('build_log') or pinfo.get('hygiene')),
                       {'broken': 'coq/Props/%s.v' % prop}, no_input=True)
